@@ -250,7 +250,15 @@ macro_rules! impl_derivatives {
 
             #[inline]
             fn tanh(&self) -> Self {
-                self.sinh() / self.cosh()
+                // sech^2 is formed directly: the quotient rule would compute it as
+                // (cosh^2 - sinh^2) / cosh^2, which cancels catastrophically for large |x|.
+                let rec = self.re.cosh().recip();
+                let f0 = self.re.tanh();
+                let f1 = rec.clone() * &rec;
+                second!($deriv, let two = F::one() + F::one(););
+                second!($deriv, let f2 = -f0.clone() * &f1 * two;);
+                third!($deriv, let f3 = (f0.clone() * &f0 * two - &f1) * &f1 * two;);
+                chain_rule!($deriv, Self::chain_rule(self, f0, f1, f2, f3))
             }
 
             #[inline]
